@@ -120,7 +120,11 @@ CHECKS['C01'] = dict(
           're-creates (`rebuilt`). Proved: for every model without table-level Meta and CHECK-carrying fields the '
           'rebuilt table equals the fresh table (C01_partial_rebuild_plain); a model-local mutation leaves every '
           'other model and every other app untouched (frame); kernel-checked counterexamples for lost '
-          'unique_together (F1) and lost CHECK (F22). Both models are validated against real tables (really created '
+          'unique_together (F1) and lost CHECK (F22). Model of the index bookkeeping the SQL generation consults instead of the database '
+          '(DatabaseState, Sql/DbState.lean): a registered index is found by its columns, a removed one is neither known by name '
+          'nor found by its columns unless another index covers them, every index sits in the dictionary of its kind '
+          '(C01_state_find_after_add, C01_state_removed_index_is_gone, C01_state_remove_then_find, C01_state_wf_step); '
+          'correspondence database_state on random call sequences against the real class. Both models are validated against real tables (really created '
           'models; tables the real backend has just rebuilt). The property oracle compares the introspected schema '
           'after executing the generated SQL (one at a time and batched, hand-written and hinted evolutions, '
           'DatabaseState scanned from the database) with the schema of freshly created evolved models, and checks '
